@@ -380,7 +380,10 @@ def gen_doc(r, prof, opts=None):
             seg["keep_sections"] = gen_keep(r, listed + subsecs)
         segments.append(seg)
     doc["segments"] = segments
-    if (settings or r.chance(0.2)) and not (not single and not partial and r.chance(prof.p_no_settings)):
+    # (dropping the block must not change what the segments were made consistent with)
+    structural = {"alloc_sections", "noload_sections", "sections_subgroups", "hardcoded_gp_value", "single_segment_mode"}
+    drop = not single and not partial and not (structural & set(settings)) and r.chance(prof.p_no_settings * 1.5)
+    if (settings or r.chance(0.2)) and not drop:
         doc["settings"] = settings
     if r.chance(prof.p_toplevel):
         doc["entry"] = r.pick(SYMS)
